@@ -57,6 +57,7 @@ fn class_common<T>(o: &mut Outcome, c: &HistCase, tr: &Trace<T>) {
             Op::Process { .. } => o.class("op:process_into_buffer"),
             Op::Partial { frac: None, .. } => o.class("op:partial(None)"),
             Op::Partial { .. } => o.class("op:partial(Some)"),
+            Op::Padded { .. } => o.class("op:padded"),
             Op::SetRatio { ramp: true, .. } => o.class("op:set_ratio(ramp)"),
             Op::SetRatio { .. } | Op::SetRatioRaw { .. } => o.class("op:set_ratio(step)"),
             Op::SetChunk { .. } | Op::SetChunkRaw { .. } => o.class("op:set_chunk"),
